@@ -185,6 +185,60 @@ impl CanonCheck {
         if nt == 0 {
             return out;
         }
+        // node-wise candidates: an inserted composite term as ONE e-node whose children are the handles
+        // recorded when the subterms were first inserted (by now possibly stale: merged away, or the class
+        // lost a slot). `lookup` has to find it without changing anything, `add` has to create nothing and
+        // return an invocation equal to the tracked one.
+        {
+            let mut order: Vec<usize> = (0..nt).filter(|i| !s.tracked[*i].tm.kids.is_empty()).collect();
+            crng.clone().shuffle(&mut order);
+            order.truncate(6);
+            for i in order {
+                let t = s.tracked[i].tm.clone();
+                if !t.kids.iter().all(|k| s.by_exact.contains_key(&k.t)) {
+                    continue;
+                }
+                let res = catch_op(|| -> Option<Violation> {
+                    let mut node = LS::mk(&t, &mut s.nm);
+                    let kids: Vec<AppliedId> = t.kids.iter().map(|k| s.tracked[s.by_exact[&k.t]].h.clone()).collect();
+                    for (r, k) in node.applied_id_occurrences_mut().into_iter().zip(kids.into_iter()) {
+                        *r = k;
+                    }
+                    let fp0 = fingerprint(&s.eg);
+                    let looked = s.eg.lookup(&node);
+                    let fp1 = fingerprint(&s.eg);
+                    if fp0 != fp1 {
+                        return Some(viol("lookup_modifies", format!("lookup of the e-node of {t} (old child handles) changed the fingerprint {fp0:?} -> {fp1:?}"), 0));
+                    }
+                    let Some(l) = looked else {
+                        return Some(viol("present_not_found", format!("{t} was inserted, but lookup of its e-node {node:?} (children = the handles returned when the subterms were inserted) returned None"), 0));
+                    };
+                    let before = s.eg.progress().number_of_classes;
+                    let added = s.eg.add(node.clone());
+                    let created = s.eg.progress().number_of_classes - before;
+                    if created != 0 {
+                        return Some(viol("present_creates_class", format!("add of the e-node {node:?} of the inserted term {t} created {created} classes"), 0));
+                    }
+                    let h = s.tracked[i].h.clone();
+                    if !s.eg.eq(&l, &added) || !s.eg.eq(&h, &added) {
+                        return Some(viol("result_not_equal_existing", format!("e-node {node:?} of {t}: lookup gives {l:?}, add gives {added:?}, the tracked invocation is {h:?}: not all equal"), 0));
+                    }
+                    None
+                });
+                out.bump("nodewise_candidates");
+                match res {
+                    Err(_) => {
+                        out.discarded = Some("panic_in_query".into());
+                        return out;
+                    }
+                    Ok(Some(v)) => {
+                        out.violations.push(v);
+                        return out;
+                    }
+                    Ok(None) => {}
+                }
+            }
+        }
         // candidates
         let mut cands: Vec<(Kind, Tm, Option<Tm>)> = Vec::new(); // (kind, candidate, term whose handle it must equal)
         let classes = ctx.cc.class_map();
